@@ -40,6 +40,9 @@ MAP = [
     ("resolving an opaque type also resolves", ["C11"], []),
     ("an opaque type is exported to the model under", ["C11"], []),
     ("an extension operation serializes with its definition's description", ["C11"], []),
+    ("add_node and add_link refuse a deleted node", ["C04"], []),
+    ("a function-valued constant is exported as the dataflow region", ["C12"], []),
+    ("exported dataflow regions list one source / target per port", ["C12"], []),
 ]
 
 
@@ -91,8 +94,12 @@ def main():
             shutil.rmtree(wt, ignore_errors=True)
         print(json.dumps(entry)[:600], flush=True)
         report.append(entry)
+    out = VERIF / "seeded" / "fix_regressions.json"
     if not only:
-        (VERIF / "seeded" / "fix_regressions.json").write_text(json.dumps(report, indent=1))
+        out.write_text(json.dumps(report, indent=1))
+    elif out.exists():  # partial run: replace / append the entries that were re-run
+        old = [e for e in json.loads(out.read_text()) if e.get("subject") not in {r.get("subject") for r in report}]
+        out.write_text(json.dumps(old + report, indent=1))
 
 
 if __name__ == "__main__":
